@@ -469,7 +469,7 @@ def rule_P4(ctx):
     ok_any = False
     for c in calls:
         ok_any = True
-        flags = c.args[1] if len(c.args) > 1 else None
+        flags = c.args[1] if len(c.args) > 1 else next((k_.value for k_ in c.keywords if k_.arg == params[1]), None)
         d = _list_domain(flags, env) if flags is not None else None
         ok = d == "CHANNEL"
         ctx.ob("P4", c, "the byte-swap flags handed to swap_endianess_multi are per channel (that function zips them with the channel list)", ok,
@@ -478,7 +478,8 @@ def rule_P4(ctx):
         ctx.ob("P4", mt, "mixed-endian inputs are handled by swap_endianess_multi", False, "call not found", inst="swap-flags-domain")
     # the flag itself: stream endianness vs system byte order ; output swap vs destination
     from .sem import list_builder, sum_builder
-    flag_names = {norm(c.args[1]) for c in calls if len(c.args) > 1 and isinstance(c.args[1], ast.Name)}
+    flag_names = {norm(c.args[1]) for c in calls if len(c.args) > 1 and isinstance(c.args[1], ast.Name)} | \
+        {norm(k_.value) for c in calls for k_ in c.keywords if k_.arg == params[1] and isinstance(k_.value, ast.Name)}
     ds = mt.args.args[0].arg
     ok, det = len(flag_names) == 1, f"flag lists {sorted(flag_names)}"
     if ok:
@@ -535,6 +536,10 @@ def rule_P4(ctx):
                 nm = c.args[0].elts[0]
                 if isinstance(nm, ast.Constant) and isinstance(nm.value, str) and "input" in nm.value:
                     v = c.args[0].elts[1]
+                    if isinstance(v, ast.Name):
+                        # a step function bound to a local first
+                        dv_ = [a_ for a_ in own_nodes(mt) if isinstance(a_, ast.Assign) and len(a_.targets) == 1 and norm(a_.targets[0]) == v.id]
+                        v = dv_[0].value if len(dv_) == 1 and isinstance(dv_[0].value, ast.Lambda) else v
                     added.append("multi" if (isinstance(v, ast.Lambda) and "swap_endianess_multi" in norm(v.body)) else norm(v))
         def agg_truth(which):
             for c_, t_, n_ in p.conds:
@@ -716,7 +721,10 @@ def rule_P5(ctx):
     pt = [c for c in own_nodes(mt) if isinstance(c, ast.Call) and norm(c.func) == "PassthroughTranscoder"]
     ctx.ob("P5", pt[0] if pt else mt, "the pass-through transcoder reads whole-frame blocks (buffer_sizes[0]) from the single stream", okb and n_pt >= 1, detb, inst="passthrough-block")
     lam = [l for l in own_nodes(mt) if isinstance(l, ast.Lambda) and "decode_frame" in norm(l.body)]
-    ok = len(lam) == 1 and norm(lam[0].body) in ("decode_frame(x, buffer_sizes=buffer_sizes)", "decode_frame(x, buffer_sizes)")
+    ok = len(lam) == 1 and len(lam[0].args.args) == 1
+    if ok:
+        pv_ = lam[0].args.args[0].arg
+        ok = norm(lam[0].body) in (f"decode_frame({pv_}, buffer_sizes=buffer_sizes)", f"decode_frame({pv_}, buffer_sizes)")
     ctx.ob("P5", mt, "the pipeline decoder reads with those block sizes", ok, "", inst="decode-lambda")
     pl = [c for c in own_nodes(mt) if isinstance(c, ast.Call) and norm(c.func) == "PipelineTranscoder"]
     ok = len(pl) == 1 and norm(pl[0].args[0]) == mt.args.args[0].arg
